@@ -15,16 +15,19 @@ theorem dispatch_frame (g : Cfg) (s : St) (fl : Flags) :
     t.sentD = s.sentD ∧ t.deqD = s.deqD ∧ t.lost = s.lost ∧ t.cerr = s.cerr ∧
     (t.task = s.task ∨ (t.task = .queued ∧ ((g.mode = .os ∧ g.isAsync = true) ∨ (g.mode = .et ∧ s.re = 0)))) ∧
     t.re ≤ s.re + 1 ∧ (g.isAsync = false → t.re = s.re) := by
-  obtain ⟨g1, g2, g3, g4, g5, g6, g7, g8, g9, g10, g11, g12, g13⟩ := gate_frame s
+  obtain ⟨u1, u2, u3, u4, u5, u6, u7, u8, u9, u10, u11, u12, u13, u14, u15⟩ := setHup_frame s fl.hang
+  obtain ⟨g1, g2, g3, g4, g5, g6, g7, g8, g9, g10, g11, g12, g13⟩ := gate_frame (setHup s fl.hang)
   rcases dispatch_cases g s fl with ⟨_, ha, e⟩ | ⟨_, e⟩ | ⟨_, ha, hm, e⟩ | ⟨_, ha, hm, e⟩
   · simp only; rw [e]; simp [setPs]
   · simp only; rw [e]; simp [setPs]
-  · simp only; rw [e]; simp [setPs, spawnTask, hm, ha]
+  · simp only; rw [e]; simp only [setPs, spawnTask]
+    exact ⟨u1, u2, u8, u9, u10, u11, u12, u13, u14, u15, Or.inr ⟨by trivial, Or.inl ⟨hm, ha⟩⟩, by rw [u3]; omega, fun h => by simp [ha] at h⟩
   · simp only; rw [e]; simp only [setPs]
-    refine ⟨g1, g2, g4, g5, g6, g7, g8, g9, g10, g11, ?_, g13, fun h => by simp [ha] at h⟩
+    refine ⟨by rw [g1, u1], by rw [g2, u2], by rw [g4, u8], by rw [g5, u9], by rw [g6, u10], by rw [g7, u11], by rw [g8, u12],
+      by rw [g9, u13], by rw [g10, u14], by rw [g11, u15], ?_, by rw [← u3]; exact g13, fun h => by simp [ha] at h⟩
     rcases g12 with h | ⟨h0, h⟩
-    · exact Or.inl h
-    · exact Or.inr ⟨h, Or.inr ⟨hm, h0⟩⟩
+    · exact Or.inl (by rw [h, u5])
+    · exact Or.inr ⟨h, Or.inr ⟨hm, by rw [← u3]; exact h0⟩⟩
 
 /-- `report` only changes the poller position, the gate (counter, task) and the arming bits of the kernel side -/
 theorem report_frame (g : Cfg) (s s' : St) (i o : Bool) (h : report g s i o = some s') :
@@ -48,11 +51,12 @@ theorem report_frame (g : Cfg) (s s' : St) (i o : Bool) (h : report g s i o = so
     by rw [d1]; exact hdis.2.2.2.2, d2, d3, d4, d5, d6, d7, d8, d9, d10, hps, hcl, d11, d12, d13, ?_⟩
   rcases dispatch_cases g (setK s (disarm g s.k)) (flagsOf s i o) with ⟨_, _, e⟩ | ⟨_, e⟩ | ⟨_, _, _, e⟩ | ⟨_, _, _, e⟩
   · rw [e]; exact Or.inr ⟨_, Or.inr rfl, rfl⟩
-  all_goals
-    rw [e]; simp only [setPs, afterEvent]
+  · rw [e]; simp only [setPs, afterEvent]
     split
     · exact Or.inr ⟨_, Or.inl rfl, rfl⟩
     · exact Or.inl rfl
+  · rw [e]; exact Or.inl rfl
+  · rw [e]; exact Or.inl rfl
 
 /-- with the core invariant, a `report` starts a task only when none is alive -/
 theorem report_task (g : Cfg) (s s' : St) (i o : Bool) (hc : Core g s) (h : report g s i o = some s') :
